@@ -13,7 +13,7 @@ Lemma disclose_here_made key salt j j' d : disclose_here E key salt j = Ok (j', 
 Proof.
   unfold disclose_here, made_with, mk_disc. destruct j; cbn; try discriminate.
   - destruct (parse_usize key); [|discriminate]. destruct (nth_error xs n); [|discriminate].
-    intros H. injection H as _ <-. reflexivity.
+    destruct (has_dots _); [discriminate|]. intros H. injection H as _ <-. reflexivity.
   - destruct (obj_get key kvs); [|discriminate]. destruct (_ || _); [discriminate|].
     destruct (obj_get "_sd" (obj_remove key kvs)) as [[]|]; try discriminate; intros H; injection H as _ <-; reflexivity.
 Qed.
@@ -31,7 +31,7 @@ Qed.
 
 Lemma build_disclosure_made c p salt c' d : build_disclosure E c p salt = Ok (c', d) -> made_with d salt.
 Proof.
-  unfold build_disclosure. destruct (split_path p) as [[toks key]|]; [|discriminate].
+  unfold build_disclosure. destruct (parse_path p) as [[toks key]|]; [|discriminate].
   apply (update_at_made (fun d => made_with d salt)). intros; eapply disclose_here_made; eauto.
 Qed.
 
